@@ -7,6 +7,7 @@ scripted peers - on the real gevent, virtual time.
 """
 from symx import api
 from symx.api import And, Or, Not
+from symx.core import Ite
 from . import qcommon as qc
 from . import netcommon as nc
 from .common import quiet_logging
@@ -56,6 +57,8 @@ def cells(tier):
                     'faults': 0, 'chain': 1, 'svc': 1})
     out.append({'kind': 'pool', 'size': 1, 'idle': 0, 'k': 3, 'faults': 1,
                 'chain': 2, 'svc': 1})
+    out.append({'kind': 'pool', 'size': 2, 'idle': 0, 'k': 3, 'faults': 0,
+                'svc': 1, 'fair': 1})
     out.append({'kind': 'pool', 'size': 1, 'idle': 1, 'k': 2, 'faults': 1,
                 'lmtp': 1})
     out.append({'kind': 'pool421', 'size': 1})
@@ -224,7 +227,10 @@ def run_pool(cell):
     w = World(cell['size'], cell['idle'], outcome_of, svc, lmtp=lmtp)
     outs = {}
     times = [api.real('t%d' % i, 0, 8) for i in range(k)]
+    if cell.get('fair'):
+        times = [0] * k           # all at once, in order
     chain = cell.get('chain', 0)
+    done_at = {}
 
     def go(i, wait=True):
         if wait:
@@ -240,6 +246,7 @@ def run_pool(cell):
             raise
         except Exception as e:
             outs[i] = ('other', e)
+        done_at[i] = qc.now()
         if i < chain:
             # the sender woken by this result submits its next message at
             # once (before the hub has run anything else)
@@ -285,6 +292,15 @@ def run_pool(cell):
                      request=i, **info)
     api.prove(len(w.relay.queue) == 0, 'requests-left-in-queue',
               n=len(w.relay.queue), **info)
+    if cell.get('fair') and cell['size'] == 2 and k == 3 and len(outs) == 3:
+        # three requests at once, two slots, no connection reuse: the third
+        # is served when the FIRST of the two clients is done - a free slot
+        # with a request waiting and no client that will ever poll again is
+        # "no client exists to serve it"
+        s0, s1, s2 = [svc('s%d@z' % i) for i in range(3)]
+        first_free = Ite(s0 <= s1, s0, s1)
+        api.prove(done_at[2] == first_free + s2,
+                  'request-waits-although-a-slot-is-free', **info)
     # one message at a time per connection, RSET after a failed transaction
     for p in w.peers:
         if p is None:
